@@ -3,7 +3,8 @@
     Property theorems only. *)
 From Coq Require Import NArith Ascii.
 From stdpp Require Import gmap.
-From Rocfl Require Import Model.Inventory Model.InvSpec Proofs.InventoryFacts Model.KnownC01 Proofs.KnownC01Facts.
+From Rocfl Require Import Model.Inventory Model.InvSpec Proofs.InventoryFacts Model.KnownC01 Proofs.KnownC01Facts
+  Model.RefusedCommit Proofs.RefusedCommitFacts.
 
 (** every reachable committed inventory is valid and every reachable staged
     inventory satisfies the staged invariant, for all histories of new / cp / mv /
@@ -51,24 +52,50 @@ Example C01_nonvacuous :
   (∃ i, o_main ex_run = Some i ∧ head i = 2%N ∧ size (i_manifest i) = 1%nat) ∧ o_staged ex_run = None.
 Proof. split; [eexists; split; [vm_compute; reflexivity|split; vm_compute; reflexivity]|vm_compute; reflexivity]. Qed.
 
-(** Known finding failed-commit-dedup-persisted (known-findings.txt): [ostep] models commits that complete.  A commit
-    that the store refuses AFTER commit_inner's de-duplication leaves the de-duplicated inventory in the staging
-    area; that inventory is a valid committed inventory but violates the staged invariant (clause I5), and staging
-    on it is NOT covered by the theorems above: there are pre, post = a de-duplication of pre, and a path p such that
-    removing p from post leaves a digest without content while removing it from pre does not. *)
-Theorem C01_known_failed_commit_dedup_refuted :
+(** Refused commits (repair 890d206 of the former known finding failed-commit-dedup-persisted).  commit_inner
+    de-duplicates the staged head before the store can still refuse the commit (no layout and no object root, root
+    occupied, version out of sync) or fail; the version then stays staged.  Since the repair the staged files that
+    were removed only because another STAGED file has the same content are put back: what stays removed are the head
+    content paths whose digest has committed content ([refused_commit], Model/RefusedCommit.v).  That inventory is
+    inside the staged invariant, every head path keeps its own file unless committed content backs it, and histories
+    with refused commits at any point keep every committed inventory valid and every staged one well formed. *)
+Theorem C01_refused_commit_keeps_invariant : ∀ i, StagedWF i → StagedWF (refused_commit i).
+Proof. exact refused_commit_wf. Qed.
+Print Assumptions C01_refused_commit_keeps_invariant.
+
+Theorem C01_refused_commit_keeps_own_files : ∀ i p d,
+  StagedWF i → i_hstate i !! p = Some d → has_nonhead i d = false →
+  i_manifest (refused_commit i) !! ncp i p = Some d.
+Proof. exact refused_commit_keeps_own_files. Qed.
+Print Assumptions C01_refused_commit_keeps_own_files.
+
+Theorem C01_reachable_valid_with_refused_commits : ∀ ops : list oop_r,
+  let s := foldl ostep_r oinit ops in
+  (∀ i, o_main s = Some i → InvOK i) ∧ (∀ i, o_staged s = Some i → StagedWF i).
+Proof. exact reachable_ok_r. Qed.
+Print Assumptions C01_reachable_valid_with_refused_commits.
+
+(** historical note: BEFORE the repair the staged inventory after a refused commit was the fully de-duplicated one
+    ([post] below), which is outside the invariant ([c01_failed_commit_dedup] = clause I5 fails), and a removal on it
+    left a digest without content: there are pre, post = a de-duplication of pre, and a path p such that removing p
+    from post leaves a dangling digest while removing it from pre does not *)
+Theorem C01_history_failed_commit_dedup_before_fix :
   ∃ pre post p,
     StagedWF pre ∧ dedup_okb pre post = true ∧
     c01_failed_commit_dedup pre = false ∧ c01_failed_commit_dedup post = true ∧
     dangling_digest (sapply (SRemove p) post) = true ∧
     dangling_digest (sapply (SRemove p) pre) = false.
 Proof. exact failed_commit_dedup_witness. Qed.
-Print Assumptions C01_known_failed_commit_dedup_refuted.
+Print Assumptions C01_history_failed_commit_dedup_before_fix.
 
-(** the class is exactly "outside the staged invariant": no inventory the theorems above speak about is in it *)
-Theorem C01_known_class_outside_invariant : ∀ i, StagedWF i → c01_failed_commit_dedup i = false.
+(** ... and on the same instance the refused commit of the repaired code changes nothing at all *)
+Example C01_refused_commit_on_the_historical_instance : refused_commit kf_pre = kf_pre.
+Proof. apply (bool_decide_eq_true_1 (refused_commit kf_pre = kf_pre)). vm_compute. reflexivity. Qed.
+
+(** no inventory inside the invariant fails clause I5 *)
+Theorem C01_invariant_implies_own_or_committed : ∀ i, StagedWF i → c01_failed_commit_dedup i = false.
 Proof. exact staged_wf_outside_class. Qed.
-Print Assumptions C01_known_class_outside_invariant.
+Print Assumptions C01_invariant_implies_own_or_committed.
 
 (** * file-system level: the fault-free commit of the protocol model (Model/FsTree.v, Model/Commit.v) leaves an object
     root that abstracts (Model/CommitAbs.v: [abs]) to a tree satisfying [written_by_rocfl] (Model/ObjTree.v) - every
